@@ -59,7 +59,8 @@ theorem pollSends_spec (m : Msg) : ∀ (is : List Nat), is.Nodup → ∀ (ps : P
       (∀ j ∈ sent, aliveAt ps j ∧ j ∉ full) ∧ (∀ j ∈ full, aliveAt ps j) ∧
       (∀ j ∈ is, aliveAt ps j → j ∈ sent ∨ j ∈ full) ∧
       (e = true → (pollSends m is ps w e).2.2 = true) ∧
-      ((pollSends m is ps w e).2.2 = false → ∀ j ∈ is, aliveAt ps j) := by
+      ((pollSends m is ps w e).2.2 = false → ∀ j ∈ is, aliveAt ps j) ∧
+      ((∀ j ∈ is, aliveAt ps j) → e = false → (pollSends m is ps w e).2.2 = false) := by
   intro is
   induction is with
   | nil =>
@@ -76,10 +77,11 @@ theorem pollSends_spec (m : Msg) : ∀ (is : List Nat), is.Nodup → ∀ (ps : P
     simp only at hfr hcall hcase
     rcases hcase with ⟨hp, hal, hlog⟩ | ⟨hp, hal, heq⟩ | ⟨hp, hal, heq⟩
     · subst hp
-      obtain ⟨sent, full, f1, f2, f3, f4, f5, f6, f7, f8, f9, f10, f11⟩ := ih hnd' ps1 w e
+      obtain ⟨sent, full, f1, f2, f3, f4, f5, f6, f7, f8, f9, f10, f11, f12⟩ := ih hnd' ps1 w e
       refine ⟨i :: sent, full, ?_⟩
       simp only [pollSends, h]
-      refine ⟨hfr.trans f1, f2.trans hcall, ?_, f4, f5.cons₂ i, f6.cons i, ?_, ?_, ?_, f10, ?_⟩
+      refine ⟨hfr.trans f1, f2.trans hcall, ?_, f4, f5.cons₂ i, f6.cons i, ?_, ?_, ?_, f10, ?_,
+        fun hall he => f12 (fun j hj => (hfr.alive j).mpr (hall j (List.mem_cons_of_mem _ hj))) he⟩
       · rw [f3, hlog]; simp
       · intro j hj
         rcases List.mem_cons.mp hj with rfl | hj
@@ -97,20 +99,22 @@ theorem pollSends_spec (m : Msg) : ∀ (is : List Nat), is.Nodup → ∀ (ps : P
         · exact hal
         · exact (hfr.alive j).mp (f11 hres j hj)
     · subst hp; subst heq
-      obtain ⟨sent, full, f1, f2, f3, f4, f5, f6, f7, f8, f9, f10, f11⟩ := ih hnd' ps1 w true
+      obtain ⟨sent, full, f1, f2, f3, f4, f5, f6, f7, f8, f9, f10, f11, f12⟩ := ih hnd' ps1 w true
       refine ⟨sent, full, ?_⟩
       simp only [pollSends, h]
-      refine ⟨f1, f2, f3, f4, f5.cons i, f6.cons i, f7, f8, ?_, fun _ => f10 rfl, ?_⟩
+      refine ⟨f1, f2, f3, f4, f5.cons i, f6.cons i, f7, f8, ?_, fun _ => f10 rfl, ?_,
+        fun hall _ => absurd (hall i List.mem_cons_self) hal⟩
       · intro j hj haj
         rcases List.mem_cons.mp hj with rfl | hj
         · exact absurd haj hal
         · exact f9 j hj haj
       · intro hres; rw [f10 rfl] at hres; cases hres
     · subst hp; subst heq
-      obtain ⟨sent, full, f1, f2, f3, f4, f5, f6, f7, f8, f9, f10, f11⟩ := ih hnd' ps1 (w ++ [i]) e
+      obtain ⟨sent, full, f1, f2, f3, f4, f5, f6, f7, f8, f9, f10, f11, f12⟩ := ih hnd' ps1 (w ++ [i]) e
       refine ⟨sent, i :: full, ?_⟩
       simp only [pollSends, h]
-      refine ⟨f1, f2, f3, by rw [f4]; simp, f5.cons i, f6.cons₂ i, ?_, ?_, ?_, f10, ?_⟩
+      refine ⟨f1, f2, f3, by rw [f4]; simp, f5.cons i, f6.cons₂ i, ?_, ?_, ?_, f10, ?_,
+        fun hall he => f12 (fun j hj => hall j (List.mem_cons_of_mem _ hj)) he⟩
       · intro j hj
         refine ⟨(f7 j hj).1, fun hf => ?_⟩
         rcases List.mem_cons.mp hf with rfl | hf
@@ -284,7 +288,8 @@ theorem Rest.of_frame {ps ps' : PSet} (hf : Frame ps ps')
 def Follows (c c' : Call) : Prop :=
   match c with
   | .protoSends k _ _ =>
-    (∃ w e, c' = .protoSends k w e) ∨ (k = .closed ∧ ∃ e, c' = .mgrSend e) ∨ (∃ ok, c' = .result k ok)
+    (∃ w e, c' = .protoSends k w e) ∨ (k = .closed ∧ ∃ e, c' = .mgrSend e) ∨
+      (∃ ok, c' = .result k ok ∧ (k = .established → ok = true))
   | .mgrSend _ => (∃ e, c' = .mgrSend e) ∨ (∃ ok, c' = .result .closed ok)
   | c => c' = c
 
@@ -312,7 +317,7 @@ theorem progress_inv (ps : PSet) (h : Inv ps) :
     have hc := h.call
     simp only [CallInv, hcall] at hc
     obtain ⟨hnd, hk1, hk2⟩ := hc
-    obtain ⟨sent, full, f1, f2, f3, f4, f5, f6, f7, f8, f9, f10, f11⟩ := pollSends_spec k.msg w hnd ps [] e
+    obtain ⟨sent, full, f1, f2, f3, f4, f5, f6, f7, f8, f9, f10, f11, _⟩ := pollSends_spec k.msg w hnd ps [] e
     rcases hr : pollSends k.msg w ps [] e with ⟨ps', w', e'⟩
     rw [hr] at f1 f2 f3 f4 f10 f11
     dsimp only at f1 f2 f3 f4 f10 f11
@@ -358,7 +363,7 @@ theorem progress_inv (ps : PSet) (h : Inv ps) :
         refine ⟨this.1, f1.trans this.2, ?_⟩
         rcases progressMgr_follows ps' e' with ⟨e2, h2⟩ | ⟨ok, h2⟩
         · exact Or.inr (Or.inl ⟨rfl, e2, h2⟩)
-        · exact Or.inr (Or.inr ⟨ok, h2⟩)
+        · exact Or.inr (Or.inr ⟨ok, h2, fun hk => by cases hk⟩)
       | cons a t =>
         simp only [progress, hcall, hr]
         refine ⟨⟨hle', by show mgrCnt ps' ≤ 1; omega, by show ps'.closedRuns ≤ 1; omega,
@@ -395,10 +400,10 @@ theorem progress_inv (ps : PSet) (h : Inv ps) :
         | closed => exact absurd rfl hkc
         | established =>
           simp only [progress, hcall, hr]
-          exact ⟨hbase _ hrest, hfr _, Or.inr (Or.inr ⟨_, rfl⟩)⟩
+          exact ⟨hbase _ hrest, hfr _, Or.inr (Or.inr ⟨_, rfl, fun _ => rfl⟩)⟩
         | substream i o =>
           simp only [progress, hcall, hr]
-          exact ⟨hbase _ hrest, hfr _, Or.inr (Or.inr ⟨_, rfl⟩)⟩
+          exact ⟨hbase _ hrest, hfr _, Or.inr (Or.inr ⟨_, rfl, fun hk => by cases hk⟩)⟩
       | cons a t =>
         simp only [progress, hcall, hr]
         refine ⟨hbase _ ?_, hfr _, Or.inl ⟨_, _, rfl⟩⟩
@@ -528,5 +533,155 @@ theorem startCall_inv (ps : PSet) (k : Kind) (h : Inv ps) (hwf : WF ps) (hq : qu
       exact ⟨this.1, ⟨hf.mgrAlive, hf.order, hf.len, hf.alive⟩⟩
     · simp only [hi, if_false]
       exact ⟨⟨h.le, h.mle, h.runs, h.rep, hrest, h.ord⟩, ⟨rfl, rfl, rfl, fun _ => Iff.rfl⟩⟩
+
+/-- `c` is a call of kind `k`, in flight or returned. -/
+def CK (k : Kind) (c : Call) : Prop :=
+  (∃ w e, c = .protoSends k w e) ∨ (k = .closed ∧ ∃ e, c = .mgrSend e) ∨
+    (∃ ok, c = .result k ok ∧ (k = .established → ok = true))
+
+theorem CK.follows {k : Kind} {c c' : Call} (h : CK k c) (hf : Follows c c') : CK k c' := by
+  rcases h with ⟨w, e, rfl⟩ | ⟨hk, e, rfl⟩ | ⟨ok, rfl, hok⟩
+  · exact hf
+  · subst hk
+    rcases hf with ⟨e', h'⟩ | ⟨ok, h'⟩
+    · exact Or.inr (Or.inl ⟨rfl, e', h'⟩)
+    · exact Or.inr (Or.inr ⟨ok, h', fun hk => by cases hk⟩)
+  · simp only [Follows] at hf; subst hf; exact Or.inr (Or.inr ⟨ok, rfl, hok⟩)
+
+theorem Follows.refl' (c : Call) : Follows c c := by
+  cases c with
+  | idle => rfl
+  | result k ok => rfl
+  | mgrSend e => exact Or.inl ⟨e, rfl⟩
+  | protoSends k w e => exact Or.inl ⟨w, e, rfl⟩
+
+theorem quiet.follows {c c' : Call} (h : quiet c) (hf : Follows c c') : c' = c := by
+  cases c with
+  | idle => exact hf
+  | result k ok => exact hf
+  | mgrSend e => exact absurd rfl (h .closed [] e).2
+  | protoSends k w e => exact absurd rfl (h k w e).1
+
+theorem startCall_shape (ps : PSet) (k : Kind) (h : Inv ps) (hwf : WF ps) (hq : quiet ps.call) :
+    CK k (startCall ps k).call ∧
+    (k = .closed → (startCall ps k).closedRuns = 1) ∧
+    (k ≠ .closed → (startCall ps k).closedRuns = ps.closedRuns) := by
+  have hrest := h.call.rest_of_quiet hq
+  cases k with
+  | closed =>
+    simp only [startCall]
+    by_cases hr : ps.closedReported = true
+    · simp only [hr, if_true]
+      exact ⟨Or.inr (Or.inr ⟨_, rfl, fun hk => by cases hk⟩), fun _ => h.rep.mp hr, fun hne => absurd rfl hne⟩
+    · simp only [hr, Bool.false_eq_true, if_false]
+      have hr0 : ps.closedRuns = 0 := by
+        have := h.runs
+        have h1 : ps.closedRuns ≠ 1 := fun h1 => hr (h.rep.mpr h1)
+        omega
+      have hi := (startCall_inv ps .closed h hwf hq).1
+      simp only [startCall, hr, Bool.false_eq_true, if_false] at hi
+      have hz := hrest.1 hr0
+      have hinv0 : Inv { ps with closedReported := true, closedRuns := ps.closedRuns + 1,
+                                 call := .protoSends .closed ps.order false } := by
+        refine ⟨h.le, h.mle, by show ps.closedRuns + 1 ≤ 1; omega,
+          by show true = true ↔ ps.closedRuns + 1 = 1; simp [hr0], ?_, h.ord⟩
+        simp only [CallInv]
+        refine ⟨hwf.1, fun _ => ⟨by simp [hr0], fun j _ => hz.1 j, ?_, hz.2⟩, fun hne => absurd rfl hne⟩
+        intro j ⟨c, hc, _⟩ hn
+        exact absurd ((hwf.2 j).mpr (List.getElem?_eq_some_iff.mp hc).1) hn
+      have := progress_inv _ hinv0
+      refine ⟨this.2.2, fun _ => ?_, fun hne => absurd rfl hne⟩
+      rw [this.2.1.runs]; show ps.closedRuns + 1 = 1; omega
+  | established =>
+    simp only [startCall]
+    have hinv0 : Inv { ps with active := false, call := .protoSends .established ps.order false } := by
+      refine ⟨h.le, h.mle, h.runs, h.rep, ?_, h.ord⟩
+      simp only [CallInv]
+      exact ⟨hwf.1, (fun hk => by cases hk), fun _ => hrest⟩
+    have := progress_inv _ hinv0
+    exact ⟨this.2.2, (fun hk => by cases hk), fun _ => this.2.1.runs⟩
+  | substream i o =>
+    simp only [startCall]
+    by_cases hi : i < ps.chans.length
+    · simp only [hi, if_true]
+      have hinv0 : Inv { ps with call := .protoSends (.substream i o) [i] false } := by
+        refine ⟨h.le, h.mle, h.runs, h.rep, ?_, h.ord⟩
+        simp only [CallInv]
+        exact ⟨by simp, (fun hk => by cases hk), fun _ => hrest⟩
+      have := progress_inv _ hinv0
+      exact ⟨this.2.2, (fun hk => by cases hk), fun _ => this.2.1.runs⟩
+    · simp only [hi, if_false]
+      exact ⟨Or.inr (Or.inr ⟨_, rfl, fun hk => by cases hk⟩), (fun hk => by cases hk), fun _ => trivial⟩
+
+/-- What an environment step guarantees. -/
+structure EnvRel (ps ps' : PSet) : Prop where
+  inv : Inv ps'
+  wf : WF ps'
+  alive : ∀ j, aliveAt ps' j → aliveAt ps j
+  mgrAlive : ps'.mgr.alive = true → ps.mgr.alive = true
+  follows : Follows ps.call ps'.call
+  runs : ps'.closedRuns = ps.closedRuns
+
+theorem EnvRel.rfl' {ps : PSet} (h : Inv ps) (hwf : WF ps) : EnvRel ps ps :=
+  ⟨h, hwf, fun _ h => h, fun h => h, Follows.refl' _, rfl⟩
+
+theorem EnvRel.via_progress {ps ps1 : PSet} (hwf : WF ps) (h1 : Inv ps1) (hcall : ps1.call = ps.call)
+    (hruns : ps1.closedRuns = ps.closedRuns) (horder : ps1.order = ps.order)
+    (hlen : ps1.chans.length = ps.chans.length)
+    (hal : ∀ j, aliveAt ps1 j → aliveAt ps j) (hm : ps1.mgr.alive = true → ps.mgr.alive = true) :
+    EnvRel ps (progress ps1) := by
+  have := progress_inv ps1 h1
+  have hwf1 : WF ps1 := by unfold WF at *; rw [horder, hlen]; exact hwf
+  exact ⟨this.1, hwf1.of_frame this.2.1, fun j hj => hal j ((this.2.1.alive j).mp hj),
+    fun ha => hm (this.2.1.mgrAlive ▸ ha), hcall ▸ this.2.2, this.2.1.runs.trans hruns⟩
+
+theorem envStep_rel (ps : PSet) (o : EnvOp) (h : Inv ps) (hwf : WF ps) : EnvRel ps (envStep ps o) := by
+  have setc : ∀ i c c', ps.chans[i]? = some c → (c'.alive = true → c.alive = true) →
+      Inv { ps with chans := ps.chans.set i c' } ∧
+      (∀ j, aliveAt { ps with chans := ps.chans.set i c' } j → aliveAt ps j) := fun i c c' hc hcc =>
+    ⟨h.weaken rfl rfl rfl rfl (aliveAt_set hc hcc) (fun h => h), aliveAt_set hc hcc⟩
+  cases o with
+  | recv i =>
+    simp only [envStep]
+    cases hc : ps.chans[i]? with
+    | none => exact EnvRel.rfl' h hwf
+    | some c =>
+      have := setc i c c.pop hc (fun h => h)
+      exact EnvRel.via_progress hwf this.1 rfl rfl rfl (by simp) this.2 (fun h => h)
+  | drop i =>
+    simp only [envStep]
+    cases hc : ps.chans[i]? with
+    | none => exact EnvRel.rfl' h hwf
+    | some c =>
+      have := setc i c c.dropRx hc (fun h => by simp [Chan.dropRx] at h)
+      exact EnvRel.via_progress hwf this.1 rfl rfl rfl (by simp) this.2 (fun h => h)
+  | fill i =>
+    simp only [envStep]
+    by_cases hw : waitingOn ps i = true
+    · simp only [hw, if_true]; exact EnvRel.rfl' h hwf
+    · simp only [hw, Bool.false_eq_true, if_false]
+      cases hc : ps.chans[i]? with
+      | none => exact EnvRel.rfl' h hwf
+      | some c =>
+        have := setc i c c.fillUp hc (fun h => by
+          unfold Chan.fillUp at h; split at h <;> simp_all)
+        refine ⟨this.1, ?_, this.2, fun h => h, Follows.refl' _, rfl⟩
+        unfold WF at *; simpa using hwf
+  | recvMgr =>
+    simp only [envStep]
+    exact EnvRel.via_progress hwf (h.weaken rfl rfl rfl rfl (fun _ h => h) (fun h => h)) rfl rfl rfl rfl
+      (fun _ h => h) (fun h => h)
+  | dropMgr =>
+    simp only [envStep]
+    exact EnvRel.via_progress hwf (h.weaken rfl rfl rfl rfl (fun _ h => h) (fun h => by simp [Chan.dropRx] at h))
+      rfl rfl rfl rfl (fun _ h => h) (fun h => by simp [Chan.dropRx] at h)
+  | fillMgr =>
+    simp only [envStep]
+    have hfill : (ps.mgr.fillUp.alive = true → ps.mgr.alive = true) := fun h => by
+      unfold Chan.fillUp at h; split at h <;> simp_all
+    by_cases hw : waitingOnMgr ps = true
+    · simp only [hw, if_true]; exact EnvRel.rfl' h hwf
+    · simp only [hw, Bool.false_eq_true, if_false]
+      exact ⟨h.weaken rfl rfl rfl rfl (fun _ h => h) hfill, hwf, fun _ h => h, hfill, Follows.refl' _, rfl⟩
 
 end Litep2pVerif.Conn
